@@ -75,6 +75,7 @@ class RunStateBinding(Binding):
             "prev": (None, "live", "safe", "psafe", "old"), "cap": ("live", "safe", "psafe"), "outs": ("live", "safe", "psafe"),
             "hw": ("unknown", "live", "safe", "psafe"), "clk": ("run", "stopped"), "msched": (False, True),
             "bad_restore": (None, "psafe", "old"), "cmd": (None,) + tuple(CONTROL), "pend": (None,) + tuple(CONTROL),
+            "pend2": (None,) + tuple(CONTROL),
             "err": (False, True),
         }
         for name in CONTROL:
@@ -476,8 +477,9 @@ class OrderPolicy:
 
 
 class Explorer:
-    def __init__(self, ctx, faults: bool, track=GHOSTS):
+    def __init__(self, ctx, faults: bool, track=GHOSTS, max_pending: int = 1):
         self.ctx = ctx
+        self.max_pending = max_pending   # user requests that may be accepted between two ticks (validated against the same state)
         self.b = RunStateBinding(ctx, faults, track)
         self.it = Interp(self.b, max_depth=6)
         self.b.interp = self.it
@@ -505,7 +507,7 @@ class Explorer:
             raise AnchorError(f"create_system_tags initial values unexpected: {init}")
         d = {"started": False, "paused": False, "holding": False, "stopping": False, "sys": "Stopped", "run_id": None,
              "mstatus": "OK", "prev": None, "cap": "live", "outs": "live", "hw": "unknown", "clk": "run", "msched": False,
-             "bad_restore": None, "cmd": None, "pend": None, "err": False, "orph": ()}
+             "bad_restore": None, "cmd": None, "pend": None, "pend2": None, "err": False, "orph": ()}
         for n in CONTROL:
             d[f"if_{n}"] = None
         for var, _ in self.b.snap.values():
@@ -594,12 +596,26 @@ class Explorer:
                         starts2 = [t for s2 in starts2 for t in (self.step_resume(s2, n) if sd(s2)[f"if_{n}"] is not None else [s2])]
                 # newest request first: a command scheduled by the method in this tick runs before the user's
                 firsts = [starts2] + [self.step_any(s2, m) for s2 in starts2 for m in method_cmds]
+                p2 = d["pend2"]
                 for group in firsts:
                     for g in group:
-                        if sd(g)[f"if_{p}"] is None:
-                            out += self.step_new(g, p)
-                        else:
-                            out += self.step_resume(g, p)
+                        gs = [g]
+                        if p2 is not None:
+                            # a second request accepted in the same inter-tick gap: both were validated against the same state;
+                            # it entered the executing list after the first one, so under newest-first it is stepped before it
+                            dg = sd(g)
+                            dg["pend2"] = None
+                            g0 = mk(dg)
+                            second_first = not self.policy.precedes(p, p2)
+                            if second_first:
+                                gs = self.step_any(g0, p2)
+                            else:
+                                gs = [g0]
+                        for g1 in gs:
+                            res = self.step_new(g1, p) if sd(g1)[f"if_{p}"] is None else self.step_resume(g1, p)
+                            if p2 is not None and not second_first:
+                                res = [t for r in res for t in self.step_any(r, p2)]
+                            out += res
                 continue
             out.append(b)
             for m in method_cmds:
@@ -637,6 +653,12 @@ class Explorer:
                     d2 = dict(d)
                     d2["pend"] = n
                     out.append((mk(d2), f"user:{n}"))
+        elif self.max_pending >= 2 and d["pend2"] is None:
+            for n in CONTROL:
+                if n != d["pend"] and self.accepted(s, n):
+                    d2 = dict(d)
+                    d2["pend2"] = n
+                    out.append((mk(d2), f"user:{n} (same tick gap)"))
         return out
 
     def explore(self, limit: int = 400000):
